@@ -6,7 +6,7 @@ cd "$HERE"
 python3 translator/gen.py
 cd lean
 TARGETS="SppModel"
-for f in SppModel/Props/*.lean SppModel/Props/Tie/*.lean SppModel/Props/Kernels/*.lean; do
+for f in SppModel/Props/*.lean SppModel/Props/Tie/*.lean SppModel/Props/Kernels/*.lean SppModel/Bridge/*/*.lean; do
   m=$(echo "${f%.lean}" | tr '/' '.')
   TARGETS="$TARGETS $m"
 done
